@@ -289,3 +289,46 @@ def c06_r4(ctx):
     eg = prog.method("multiproc.MpWriter", "end_group", inherited=False)
     ctx.ob(sg, "self._grouping += 1" in norm.stmt_text(sg.node) and "self._grouping -= 1" in norm.stmt_text(eg.node),
            "start_group/end_group count nesting in _grouping")
+
+
+@rule("C06", "R5", "K1", "the writer's own (merged-in or newly added) documents are part of the segment list it publishes",
+      min_instances=3, also=("C18", "C02"),
+      clause="On every path of SegmentWriter.commit / MpWriter._commit / SerialMpWriter._commit that reaches "
+             "_commit_toc(...), the writer's current segment was finalized (_finalize_segment) or assembled "
+             "(_assemble_segment) -- or the path established that nothing was added (self._added is false); merge "
+             "policies pull old segments into the writer's pool, so closing without finalizing drops them.")
+def c06_r5(ctx):
+    prog = ctx.prog
+    from ..typestate import TypeState
+    for qn in ("writing.SegmentWriter.commit", "multiproc.MpWriter._commit", "multiproc.SerialMpWriter._commit"):
+        f = prog.func(qn)
+        ctx.saw(f)
+
+        def classify(func, call, res, concrete):
+            nm = norm.call_name(call)
+            if nm in ("_finalize_segment", "_assemble_segment"):
+                return "kept"
+            if nm == "_commit_toc":
+                return "publish"
+            return None
+
+        def edge_event(func, node, label):
+            if node.kind == "test" and norm.canon(node.ast) == "self._added" and label[0] == "F":
+                return "nothing_added"
+            return None
+
+        def delta(state, ev):
+            if state == "BAD":
+                return state
+            if ev in ("kept", "nothing_added"):
+                return "OK"
+            if ev == "publish" and state == "U":
+                return "BAD"
+            return state
+        ts = TypeState(prog, calls_of(prog), delta, classify, edge_event=edge_event, max_depth=0)
+        ts.all_states = ("U", "OK")
+        exits = ts.run(f, f.cls, "U")
+        bad = exits.get("BAD")
+        pubs = [c for c in norm.calls_in(f.node) if norm.call_name(c) == "_commit_toc"]
+        ctx.ob(f, bool(pubs) and bad is None, "every path to _commit_toc finalized/assembled the current segment or knows nothing was added",
+               path=cfgmod.path_text(bad) if bad else None)
